@@ -111,6 +111,9 @@ type vkStr struct {
 	ID   int
 	Name string
 }
+type vkName struct {
+	Name string
+}
 
 func TestVerifKeys(t *testing.T) {
 	name := "keys"
@@ -292,6 +295,26 @@ func TestVerifKeys(t *testing.T) {
 			}
 			return vkStr{ID: i, Name: n}
 		}, func(k vkStr) string { return strconv.Itoa(k.ID) + "/" + k.Name })
+		// a StringKey function that yields the empty string for some keys, the equal keys being built along different
+		// code paths: the literal "", an empty slice of a heap string, an empty slice in the middle of another one
+		vkeysRun(tr, "struct-with-string+StringKey (empty string forms)", r, 12, func(i, v int) vkName {
+			if i < 3 {
+				base := strconv.Itoa(1000000+i*7+v) + "tail"
+				switch v {
+				case 0:
+					return vkName{Name: ""}
+				case 1:
+					return vkName{Name: base[:0]}
+				default:
+					return vkName{Name: base[3:3]}
+				}
+			}
+			n := "k" + strconv.Itoa(i)
+			if v == 1 {
+				n = string(append([]byte(nil), n...))
+			}
+			return vkName{Name: n}
+		}, func(k vkName) string { return k.Name })
 		// forced hash collisions: a StringKey function that maps all keys onto three strings
 		vkeysRun(tr, "int+colliding-StringKey", r, 40, func(i, v int) int { return int(ival(i)) },
 			func(k int) string { return strconv.Itoa(((k % 3) + 3) % 3) })
